@@ -2013,6 +2013,15 @@ class Planner:
             t = self.call("ufl.as_ufl", v)
             if t is not None:
                 lits.append(t)
+        # the same number arriving as Python int, bool and numpy scalar: as_ufl normalises, so
+        # these are equal literals and must print and hash alike
+        for py, others in ((1, [True, ["np", "int64", 1]]), (2, [["np", "int32", 2]]), (200, [["np", "int64", 200]]), (0.5, [["np", "float64", 0.5]])):
+            t0 = self.call("ufl.as_ufl", py)
+            for v in others:
+                t1 = self.call("ufl.as_ufl", v)
+                if t0 is not None and t1 is not None:
+                    pairs.append([t0, t1, "lit:numtype"])
+                    lits.append(t1)
         for sh in [(), (2,), (3,), (2, 2), (2, 3)]:
             t = self.call("ufl.classes.Zero", self.lit_tuple(sh))
             if t is not None:
